@@ -20,6 +20,7 @@ func init() {
 
 func checkC13(c *Ctx) {
 	p := c.P
+	checkC13BatchError(c)
 	hooks := hookInterfaces(p)
 	execs, regs := executorSet(p)
 
